@@ -68,15 +68,11 @@ Proof.
   destruct s as [|c r]; [reflexivity|]. cbn [core_ok] in Hc. inversion Hs as [|? ? Hc0 Hr]; subst.
   unfold strip_sign. destruct (c =? 45) eqn:E1; cbn [fst snd].
   - cbn [orb] in Hc. specialize (G r Hr Hc). destruct r as [|c2 r2]; [reflexivity|].
-    destruct (is_alnum c2); [|reflexivity]. destruct (str2int_digits (c2 :: r2) base 0) as [[n rest]|]; [|reflexivity].
-    destruct (skip_ws rest); [discriminate | reflexivity].
+    revert G. destruct (is_alnum c2); [|reflexivity]. destruct (str2int_digits (c2 :: r2) base 0) as [[n rest]|]; [|reflexivity].
+    destruct (skip_ws rest); [intros G; discriminate G | reflexivity].
   - destruct (c =? 43) eqn:E2; cbn [fst snd].
-    + cbn [orb] in Hc. specialize (G r Hr Hc). destruct r as [|c2 r2]; [reflexivity|].
-      destruct (is_alnum c2); [|reflexivity]. destruct (str2int_digits (c2 :: r2) base 0) as [[n rest]|]; [|reflexivity].
-      destruct (skip_ws rest); [discriminate | reflexivity].
-    + cbn [orb] in Hc. specialize (G (c :: r) Hs ltac:(cbn [nonempty andb]; exact Hc)).
-      destruct (is_alnum c); [|reflexivity]. destruct (str2int_digits (c :: r) base 0) as [[n rest]|]; [|reflexivity].
-      destruct (skip_ws rest); [discriminate | reflexivity].
+    + cbn [orb] in Hc. exact (G r Hr Hc).
+    + cbn [orb] in Hc. exact (G (c :: r) Hs ltac:(cbn [nonempty andb]; exact Hc)).
 Qed.
 
 (* ---- lower-casing does not change acceptance ---- *)
@@ -98,7 +94,9 @@ Proof.
   destruct s as [|c r]; [reflexivity|]. cbn [map core_ok]. destruct (lower_facts c) as (_ & S & _). rewrite S.
   assert (F : forall l, forallb (digit_okb base) (map to_lower l) = forallb (digit_okb base) l).
   { induction l as [|x l IH]; cbn [map forallb]; [reflexivity|]. rewrite digit_okb_lower, IH. reflexivity. }
-  rewrite F, digit_okb_lower. destruct r; reflexivity.
+  destruct ((c =? 45) || (c =? 43)).
+  - rewrite F. destruct r; reflexivity.
+  - change (to_lower c :: map to_lower r) with (map to_lower (c :: r)). apply F.
 Qed.
 
 (* ---- the chunk loop rejects a digit at or above the base ---- *)
